@@ -41,7 +41,7 @@ R = [
  (r'block_token\.Table\.parse_align', r'\$p0\[(0|-1)\]', 'RX-NONNULL', 'column is an element of column_align_pattern.findall(...): the pattern `:?-+:?` cannot match the empty string'),
  (r'block_token\.Footnote\.read', r'while offset', 'LOOP', 'match_reference returns an offset strictly greater than its argument (it has consumed at least "[x]:" and a line end) or None, which breaks the loop'),
  (r'block_token\.Footnote\.match_reference', r'shift_whitespace\(\$p1, label_end \+ 1\)', 'BOUNDED', 'dest_start == len(string) returns above; shift_whitespace returns an index <= len(string)'),
- (r'block_token\.Footnote\.match_reference', r'shift_whitespace\(\$p1, dest_end\)', 'BOUNDED', 'evaluated only when title_start < title_end <= len(string)'),
+ (r'block_token\.Footnote\.match_reference', r'string\[title_start\]|shift_whitespace\(\$p1, dest_end\)', 'BOUNDED', 'evaluated only when title_start < title_end <= len(string)'),
  (r'block_token\.Footnote\.match_link_dest', r'\$p1\[\$p2\]', 'BOUNDED', 'caller passes dest_start, which it has just checked to be != len(string) and which is <= len(string)'),
  (r'block_token\.Footnote\.match_link_title', r'\$p1\[\$p2\]', 'BOUNDED', 'offset == len(string) returns above; callers pass an index <= len(string) (result of shift_whitespace)'),
  (r'block_token\.ThematicBreak\.__init__', r'\$p1\[0\]', 'PROTOCOL', 'argument is the one-element list returned by ThematicBreak.read'),
@@ -67,23 +67,29 @@ R = [
 
 def main():
     ev = json.load(open(os.path.join(HERE, 'evidence', 'C01.json')))
-    keys = [f['key'] for f in ev['coverage']['findings_new'] if f['rule'] in ('R-IDX', 'R-LOOP')]
+    found = [f for f in ev['coverage']['findings_new'] if f['rule'] in ('R-IDX', 'R-LOOP')]
+    keys = [f['key'] for f in found]
+    text = {f['key']: f.get('witness', '') for f in found}
     path = os.path.join(HERE, 'sa', 'audit', 'c01.json')
     cur = json.load(open(path))
-    entries = [e for e in cur['entries'] if '/R-IDX/' not in e['key'] and '/R-LOOP/' not in e['key']]
+    entries = list(cur['entries'])
+    have = {e['key'] for e in entries}
+    keys = [k for k in keys if k not in have]
     missing = []
     for k in keys:
         m = re.match(r'C01/(R-IDX|R-LOOP)/([^/]+)/(.*)$', k)
         fn, site = m.group(2), m.group(3)
+        kind = site.split(':', 1)[0]
+        orig = '%s:%s' % (kind, text.get(k, '')) if not site.startswith('while') else text.get(k, site)
         hit = None
         for fre, sre, backing, reason in R:
-            if re.search(fre, fn) and re.search(sre, site):
+            if re.search(fre, fn) and (re.search(sre, site) or re.search(sre, orig) or re.search(sre.replace(r'\$p', r'\w+\b|\$p'), orig)):
                 hit = (backing, reason)
                 break
         if hit is None:
             missing.append(k)
             continue
-        entries.append({'key': k, 'backing': hit[0], 'reason': hit[1]})
+        entries.append({'key': k, 'site': text.get(k, ''), 'backing': hit[0], 'reason': hit[1]})
     json.dump({'entries': entries}, open(path, 'w'), indent=1)
     print('audited', len(entries), 'missing', len(missing))
     for k in missing:
